@@ -17,6 +17,25 @@ EXPLANATION = ("Structural rules over the instantiated AST of histogram.hpp (dri
 W = "include/boost/gil/histogram.hpp"
 
 
+def split_args(t):
+    """top-level template arguments of a comma separated list (stops at the closing bracket of the list)"""
+    out, depth, cur = [], 0, ""
+    for ch in t:
+        if ch in "<(":
+            depth += 1
+        elif ch in ">)":
+            if depth == 0:
+                break
+            depth -= 1
+        if ch == "," and depth == 0:
+            out.append(cur.strip()); cur = ""
+        else:
+            cur += ch
+    if cur.strip():
+        out.append(cur.strip())
+    return out
+
+
 def formula(n, atoms):
     """boolean AST -> python lambda over an assignment dict; atoms collected by canonical key"""
     n = R.strip(n)
@@ -248,6 +267,11 @@ def run(rep):
             key = "H1:histogram::fill:%s" % re.sub(r"boost::gil::", "", f["full"].split("::fill")[-1])[:60]
             prob, unknown = [], []
             loops = loops_of(g["body"])
+            # an optional third loop inside the column loop may be the scaling step written channel by channel (decided below)
+            scal_loop = None
+            if len(loops) == 3 and all(l.get("k") == "For" for l in loops) and any(x is loops[2] for x, _ in R.find(loops[1]["body"], lambda x: x.get("k") == "For")):
+                scal_loop = loops[2]
+                loops = loops[:2]
             if len(loops) != 2 or any(l.get("k") != "For" for l in loops):
                 unknown.append("expected a two-level for nest, found %d loops" % len(loops))
             else:
@@ -289,10 +313,42 @@ def run(rep):
                         if not ok:
                             prob.append("skip condition over %s is not `applymask && !mask[y][x]`" % at)
                     scal = [k for k, x, p in eff if any(a.get("k") == "Lambda" for a, _, _ in p)]
-                    if scal != ["(&0 = (&0 / $1))"] and scal != ["(&0 /= $1)"]:
-                        prob.append("channel scaling %s" % scal)
                     sfe = [(R.key(c), c.get("line") or 0) for c, _ in R.calls_in(loops[1]["body"], lambda n: n.endswith("static_for_each"))]
-                    if [k for k, _ in sfe] != ["static_for_each(%s,Lambda)" % env["P"]]:
+                    # channels the key is built from: the Dimensions... of fill<>, all axes of the histogram when none are given
+                    mh = re.match(r"boost::gil::histogram<(.*?)>::fill<", f["full"])
+                    naxes = len(split_args(mh.group(1))) if mh else None
+                    sel = []
+                    for a in split_args(f["full"].split("::fill<", 1)[1]) if "::fill<" in f["full"] else []:
+                        ma = re.fullmatch(r"(\d+)(?:UL|U|L)?", a.strip())
+                        if not ma:
+                            break
+                        sel.append(int(ma.group(1)))
+                    if not sel and naxes is not None:
+                        sel = list(range(naxes))
+                    if scal_loop is not None and not sfe:
+                        # for (c = 0; c < B; ++c) P[c] = P[c] / bin_width: divides the first B channels in memory
+                        cv, c0, ccond, cinc = for_shape(scal_loop)
+                        mb = re.fullmatch(r"\(%s < (.*)\)" % re.escape(cv or "?"), ccond or "")
+                        bexp = mb.group(1) if mb and c0 == "0" and cinc in ("(++%s)" % cv, "(%s++)" % cv, "(%s += 1)" % cv) else None
+                        bound = naxes if bexp in ("dimension()", "this.dimension()") else int(bexp) if bexp and re.fullmatch(r"\d+", bexp) else None
+                        leff = [k for k, _, _ in effects(scal_loop["body"])]
+                        Pc = "%s[%s]" % (env["P"], cv)
+                        if leff not in (["(%s = (%s / $1))" % (Pc, Pc)], ["(%s /= $1)" % Pc]):
+                            unknown.append("scaling loop body %s" % leff)
+                        elif bound is None or naxes is None:
+                            unknown.append("scaling loop bound %s" % ccond)
+                        else:
+                            missed = [c for c in sel if c >= bound]
+                            if missed:
+                                prob.append("the scaling loop divides channels 0..%d of the pixel by bin_width, the key is built from channels %s: channel(s) %s reach the key undivided "
+                                            "(bin width 2, channel value 7: counted in bin 7 instead of bin 3)" % (bound - 1, sel, missed))
+                        sfe = [(None, scal_loop.get("line") or 0)]
+                    elif scal != ["(&0 = (&0 / $1))"] and scal != ["(&0 /= $1)"]:
+                        prob.append("channel scaling %s" % scal)
+                    if sfe and sfe[0][0] is None:
+                        if keyexpr in decl_line and decl_line[keyexpr] <= sfe[0][1]:
+                            prob.append("the key is built before the channels are divided by bin_width")
+                    elif [k for k, _ in sfe] != ["static_for_each(%s,Lambda)" % env["P"]]:
                         prob.append("scaling applied to %s" % [k for k, _ in sfe])
                     elif keyexpr in decl_line and decl_line[keyexpr] <= sfe[0][1]:
                         prob.append("the key is built before the channels are divided by bin_width")
